@@ -35,7 +35,7 @@ MATCH_ASSUME = [
     'a string field is a NUL-terminated heap block iff its flag is set (destination NULL otherwise); ARGS => 1 <= args_len <= 64, args/arg_lens have args_len+1 slots, '
     'slot k is NULL/0 or a NUL-terminated block of exactly (arg_lens[k] & ~FLAGS)+1 bytes, never both IS_PATH and NAMESPACE (established by bus_match_rule_set_* / the parser: units C07.setters, C07.parse, C07.parse_arg)',
     'RULE_OK: a path / path_namespace value is not empty and begins with \'/\' (the parser admits it only through _dbus_validate_path: C07.parse + C16.path)',
-    'the rule sender is a symbolic string of <= 8 bytes or the literal org.freedesktop.DBus (the one longer name the matcher compares against)',
+    'the rule sender, the rule destination and the message DESTINATION are each a symbolic string of <= 8 bytes or the literal org.freedesktop.DBus (the one longer name the matcher compares against)',
     'already_matched is a subset of MESSAGE_TYPE|INTERFACE and those keys do match (get_recipients_from_list: pools are indexed by type and interface)',
     'strings of the message and of the rule have symbolic content of at most 8 bytes (the args loop itself is not unwound)',
     'string-like message arguments point into the message body behind their 4-byte length word (wire format); the iterator contract delivers one arbitrary argument per index (arbitrary type code; STRING / OBJECT_PATH content <= 8 bytes without NUL) and DBUS_TYPE_INVALID from the end on',
@@ -43,11 +43,11 @@ MATCH_ASSUME = [
 ]
 for variant, defs in (('match', []), ('match.nonempty', ['VERIF_ASSUME_NONEMPTY_PATHARG'])):
     UNITS.append(dict(
-        name='C07.' + variant, props=['C07', 'C10'], kind='P', route='hybrid', bus=True,
+        name='C07.' + variant, props=['C07', 'C10', 'C18'], kind='P', route='hybrid', bus=True,
         tus=[dict(file=SIG, overlay='c07_signals.ovl', include_as='VERIF_TU')], harness='harness/c07_match.c',
         defines=defs, replace_calls=MATCH_STUBS, allow_skip_msg=True, unwind=10, unwindset=['harness.0:66'],
         timeout=900, expect_s=60, replay_family='match',
-        must_have=['post1', 'post2', 'post3', 'post4', 'Check invariant after step for loop'],
+        must_have=['post1g.conn', 'post1g.name', 'post2', 'post3', 'post4', 'Check invariant after step for loop'],
         bounds={'string_bytes': 8, 'args_len': 'any value the parser can build (1..64); the loop over it is closed by a loop contract, not unwound'},
         functions=MATCH_FUNCS,
         assumptions=MATCH_ASSUME + (['argNpath value is not empty (TEMPORARY: the parser accepts the empty value; C07.match is the unit without this assumption)'] if defs else [])))
